@@ -56,11 +56,17 @@ def routing(p):
     if mret[0] != "call" or mret[1] not in p.fns:
         raise ShapeUnrecognised("Logger::max_log_level does not return a local function's result")
     r["max_level"] = p.fn(mret[1])
-    # snapshot constructor: in Cone(Logger::new), the function that sorts and loops
-    cone = p.cone(["Logger::new"], cut_traits=("append::Append", "filter::Filter", "encode::Encode"))
-    sn = [p.fns[x] for x in cone if any("sort" in (c.callee or "").rsplit("::", 1)[-1] for c in p.fns[x].calls())]
+    # snapshot constructor: the function that builds the snapshot aggregate (type behind Logger's Arc<ArcSwap<..>>)
+    import re as _re
+    lg = p.adt("Logger")
+    m = _re.search(r"ArcSwapAny<alloc::sync::Arc<([A-Za-z_0-9:]+)>", lg["variants"][0]["fields"][0]["ty"])
+    if not m or m.group(1) not in p.adts:
+        raise AnchorMissing("cannot find the snapshot type behind Logger")
+    r["snapshot_adt"] = m.group(1)
+    sn = sorted({a[0].path for a in p.aggregates(m.group(1)) if a[0].kind != "Closure"})
+    sn = [p.fns[x] for x in sn]
     if len(sn) != 1:
-        raise ShapeUnrecognised("expected one sorting function in Cone(Logger::new), found %s" % [f.path for f in sn])
+        raise ShapeUnrecognised("expected one function constructing the snapshot, found %s" % [f.path for f in sn])
     r["shared_new"] = sn[0]
     adds = [c for c in sn[0].calls() if c.callee in p.fns and sn[0].in_loop(c.block)
             and p.fns[c.callee].d.get("impl_self_adt") == r["find"].d.get("impl_self_adt")]
